@@ -336,7 +336,12 @@ def r4_3(ctx, rc):
     from .c02 import _slice_names
     for c in rec:
         cn = ctx.H.node_of(W, c)[0]
-        names = {n.id for n in ast.walk(c.args[0])
+        bw = prog.bind_args(c, W)
+        a0 = bw.get(W.params[0]) if W.params else None
+        if not isinstance(a0, ast.AST):
+            ok = False
+            continue
+        names = {n.id for n in ast.walk(a0)
                  if isinstance(n, ast.Name)}
         grew = True
         while grew:
@@ -359,8 +364,8 @@ def r4_3(ctx, rc):
                     grew = True
         if dirs_name not in names or files_name in names:
             ok = False
-        if len(c.args) < 3 or not any(
-                isinstance(a, ast.Name) and a.id == ov for a in c.args):
+        aov = bw.get(ov)
+        if not (isinstance(aov, ast.Name) and aov.id == ov):
             ok = False
     if ok:
         rc.ok({'recursion': 'for subdir in subdirs'}, key=key)
@@ -570,10 +575,28 @@ def r4_5(ctx, rc):
                     isinstance(a.func, ast.Attribute) and
                     a.func.attr == 'is_removed_norm_case')
 
+    # the set the overlay's directory predicate looks into (a direct
+    # membership test on it is the same question)
+    dirs_attr = None
+    hd = prog.funcs.get('CreatedFiles.has_norm_cased_dir')
+    if hd is not None:
+        for r in ast.walk(hd.node):
+            if isinstance(r, ast.Return) and isinstance(
+                    r.value, ast.Compare) and len(r.value.ops) == 1 and \
+                    isinstance(r.value.ops[0], ast.In) and isinstance(
+                        r.value.comparators[0], ast.Attribute):
+                dirs_attr = r.value.comparators[0].attr
+
     def overlay_true(lab):
-        return fact(lab, 'T', lambda a, f, cn: isinstance(a, ast.Call) and
-                    isinstance(a.func, ast.Attribute) and
-                    a.func.attr == 'has_norm_cased_dir')
+        if fact(lab, 'T', lambda a, f, cn: isinstance(a, ast.Call) and
+                isinstance(a.func, ast.Attribute) and
+                a.func.attr == 'has_norm_cased_dir'):
+            return True
+        return dirs_attr is not None and fact(
+            lab, 'T', lambda a, f, cn: isinstance(a, ast.Compare) and
+            len(a.ops) == 1 and isinstance(a.ops[0], ast.In) and
+            isinstance(a.comparators[0], ast.Attribute) and
+            a.comparators[0].attr == dirs_attr)
     seen = sgd.reach([sgd.entry], edge_ok=lambda a, b, lab: not (
         removed_false(lab) or overlay_true(lab)))
     key = 'is_dir answers True only for directories not virtually removed'
